@@ -769,6 +769,38 @@ def rule_region_kind(prog, C, rule, modules=("ffuncs", "xfuncs"), classes=None):
     return n
 
 
+# ------------------------------------------------------------------------------ a given weight is used
+def rule_weights_used(prog, C, rule, modules=("ffuncs", "xfuncs"), classes=("valid_count", "sum", "mean")):
+    """Whatever form a weight is given in (per-row array or bare scalar), the constructor's row arrays involve it: a scalar
+    weight that is silently dropped ("a constant cancels out") loses its MISSINGNESS and its zero - a NaN or 0 scalar weight
+    must make every cell of a mean / sum / valid count missing."""
+    n = 0
+    for module in modules:
+        pre = "ffunc_" if module == "ffuncs" else "xfunc_"
+        for name in classes:
+            if prog.modules[module].classes.get(pre + name) is None:
+                continue
+            for scal in (False, True):
+                cfg = aggr.Config(weights="array", scalar_w=scal)
+                try:
+                    m = model(prog, module, pre + name, cfg)
+                except Exception as e:  # noqa
+                    C.add(rule, UNDECIDED, "%s:%s%s.__init__" % (module, pre, name), "%s: weights given as %s" % (name, "a bare scalar" if scal else "an array"), "constructor not modelled: %s" % e)
+                    continue
+                n += 1
+                where = "%s:%s%s.__init__" % (module, pre, name)
+                cons = "%s: a weight given as %s takes part in the row arrays" % (name, "a bare scalar" if scal else "a per-row array")
+                rows = [r for f, r in m.rows.items() if f in ("summables", "countables", "wsummables", "validity", "arr")]
+                if any(isinstance(r, tuple) and r and r[0] == "UNKNOWN" for r in rows):
+                    C.add(rule, UNDECIDED, where, cons, "a constructor field is not normalised")
+                    continue
+                used = any(_mentions(r, lambda x: x in (("VALS", "weights"), ("VALID", "weights"))) for r in rows)
+                C.ok(used, rule, where, cons, "the weights reach summables / countables / validity",
+                     "with %s the constructor takes the unweighted branch: the weight is never used, so its missingness (NaN, validity False) and a zero weight no longer make cells missing"
+                     % ("numpy.isscalar(weights) true" if scal else "array weights"), witness={"inputs": "mean(arr, weights=float('nan')) or weights=0.0: every cell must be missing"})
+    return n
+
+
 # ------------------------------------------------------------------------------ layout of row arrays
 def _layout(t, seen=None):
     """Axis layout of a constructor term for facts of shape (rows, columns) and per-row weights:
